@@ -1,2 +1,558 @@
-(* Proofs/MashProofs.v *)
+(* Proofs/MashProofs.v — C17, part 1: the sketch built by Push after Push is the
+   n smallest distinct hash values, descending; consequences that need nothing
+   about DNA (content only, permutation, incremental Add, tail, letter case). *)
+From Coq Require Import Sorted Permutation.
 From Bio Require Import Base.
+From Bio.Model Require Import Seq Mash.
+From Bio.Spec Require Import MashSpec.
+
+(* ---- strictly sorted lists are determined by their elements ----------------- *)
+Lemma ss_unique {A} (R : A -> A -> Prop) :
+  (forall x y, R x y -> R y x -> False) ->
+  forall l1 l2, StronglySorted R l1 -> StronglySorted R l2 ->
+  (forall x, In x l1 <-> In x l2) -> l1 = l2.
+Proof.
+  intros Asym. induction l1 as [|a l1 IH]; intros [|b l2] S1 S2 H.
+  - reflexivity.
+  - exfalso. apply (H b). left. reflexivity.
+  - exfalso. apply (H a). left. reflexivity.
+  - apply StronglySorted_inv in S1. destruct S1 as [S1 F1].
+    apply StronglySorted_inv in S2. destruct S2 as [S2 F2].
+    rewrite Forall_forall in F1, F2.
+    assert (E : a = b).
+    { destruct (proj1 (H a) (or_introl eq_refl)) as [E|Ia]; [congruence|].
+      destruct (proj2 (H b) (or_introl eq_refl)) as [E|Ib]; [congruence|].
+      exfalso. exact (Asym _ _ (F1 _ Ib) (F2 _ Ia)). }
+    subst b. f_equal. apply IH; try assumption.
+    intros x. split; intros Hx.
+    + destruct (proj1 (H x) (or_intror Hx)) as [E|I]; [|exact I].
+      subst x. exfalso. exact (Asym _ _ (F1 _ Hx) (F1 _ Hx)).
+    + destruct (proj2 (H x) (or_intror Hx)) as [E|I]; [|exact I].
+      subst x. exfalso. exact (Asym _ _ (F2 _ Hx) (F2 _ Hx)).
+Qed.
+
+Lemma asc_unique l1 l2 : asc l1 -> asc l2 -> (forall x, In x l1 <-> In x l2) -> l1 = l2.
+Proof. apply ss_unique. intros x y H1 H2. lia. Qed.
+
+Lemma desc_unique l1 l2 : desc l1 -> desc l2 -> (forall x, In x l1 <-> In x l2) -> l1 = l2.
+Proof. apply ss_unique. intros x y H1 H2. cbv beta in *. lia. Qed.
+
+Lemma ss_app {A} (R : A -> A -> Prop) l1 l2 :
+  StronglySorted R l1 -> StronglySorted R l2 ->
+  (forall a b, In a l1 -> In b l2 -> R a b) -> StronglySorted R (l1 ++ l2).
+Proof.
+  induction l1 as [|a l1 IH]; intros S1 S2 H; [exact S2|].
+  apply StronglySorted_inv in S1. destruct S1 as [S1 F1].
+  cbn [app]. constructor.
+  - apply IH; [assumption|assumption|]. intros x y Hx Hy. apply H; [right; exact Hx|exact Hy].
+  - apply Forall_app. split; [exact F1|].
+    apply Forall_forall. intros y Hy. apply H; [left; reflexivity|exact Hy].
+Qed.
+
+Lemma ss_rev {A} (R : A -> A -> Prop) l :
+  StronglySorted R l -> StronglySorted (fun a b => R b a) (rev l).
+Proof.
+  induction l as [|a l IH]; intros S; [constructor|].
+  apply StronglySorted_inv in S. destruct S as [S F]. rewrite Forall_forall in F.
+  cbn [rev]. apply ss_app.
+  - apply IH. exact S.
+  - constructor; constructor.
+  - intros x y Hx [Hy|[]]. subst y. apply F. apply in_rev. exact Hx.
+Qed.
+
+Lemma asc_rev l : asc l -> desc (rev l).
+Proof. apply ss_rev. Qed.
+
+Lemma desc_rev l : desc l -> asc (rev l).
+Proof. intros H. apply (ss_rev (fun a b => b < a)). exact H. Qed.
+
+Lemma in_firstn {A} n (l : list A) x : In x (firstn n l) -> In x l.
+Proof. intros H. rewrite <- (firstn_skipn n l). apply in_or_app. left. exact H. Qed.
+
+Lemma ss_firstn {A} (R : A -> A -> Prop) n l : StronglySorted R l -> StronglySorted R (firstn n l).
+Proof.
+  revert l. induction n as [|n IH]; intros l S; [constructor|].
+  destruct l as [|a l]; [constructor|].
+  apply StronglySorted_inv in S. destruct S as [S F]. cbn [firstn]. constructor; [apply IH; exact S|].
+  rewrite Forall_forall in *. intros x Hx. apply F. eapply in_firstn. exact Hx.
+Qed.
+
+(* ---- ins_asc ------------------------------------------------------------------ *)
+Lemma ins_asc_in x l y : In y (ins_asc x l) <-> y = x \/ In y l.
+Proof.
+  induction l as [|z l IH]; cbn [ins_asc].
+  - cbn. intuition congruence.
+  - destruct (x <? z); [cbn; intuition congruence|].
+    destruct (N.eqb_spec x z) as [E|E].
+    + subst z. cbn. intuition congruence.
+    + cbn [In]. rewrite IH. intuition congruence.
+Qed.
+
+Lemma ins_asc_sorted x l : asc l -> asc (ins_asc x l).
+Proof.
+  unfold asc. induction l as [|z l IH]; intros S; cbn [ins_asc].
+  - constructor; constructor.
+  - pose proof S as S0. apply StronglySorted_inv in S. destruct S as [S F].
+    destruct (N.ltb_spec x z) as [L|L].
+    + constructor; [exact S0|]. constructor; [exact L|].
+      rewrite Forall_forall in *. intros y Hy. specialize (F y Hy). lia.
+    + destruct (N.eqb_spec x z) as [E|E]; [exact S0|].
+      constructor; [apply IH; exact S|].
+      rewrite Forall_forall in *. intros y Hy. apply ins_asc_in in Hy. destruct Hy as [Hy|Hy].
+      * subst y. lia.
+      * apply F. exact Hy.
+Qed.
+
+Definition ins_all (l acc : list N) : list N := fold_left (fun a x => ins_asc x a) l acc.
+
+Lemma ins_all_in l acc y : In y (ins_all l acc) <-> In y l \/ In y acc.
+Proof.
+  unfold ins_all. revert acc. induction l as [|x l IH]; intros acc; cbn [fold_left].
+  - cbn. intuition.
+  - rewrite IH, ins_asc_in. cbn [In]. intuition congruence.
+Qed.
+
+Lemma ins_all_sorted l acc : asc acc -> asc (ins_all l acc).
+Proof.
+  unfold ins_all. revert acc. induction l as [|x l IH]; intros acc S; cbn [fold_left]; [exact S|].
+  apply IH. apply ins_asc_sorted. exact S.
+Qed.
+
+Lemma sort_dedup_in l y : In y (sort_dedup l) <-> In y l.
+Proof. unfold sort_dedup. fold (ins_all l []). rewrite ins_all_in. cbn. intuition. Qed.
+
+Lemma sort_dedup_asc l : asc (sort_dedup l).
+Proof. unfold sort_dedup. fold (ins_all l []). apply ins_all_sorted. constructor. Qed.
+
+(* the sorted distinct values depend on the SET of values only *)
+Lemma sort_dedup_content l1 l2 : (forall x, In x l1 <-> In x l2) -> sort_dedup l1 = sort_dedup l2.
+Proof.
+  intros H. apply asc_unique; try apply sort_dedup_asc.
+  intros x. rewrite !sort_dedup_in. apply H.
+Qed.
+
+Lemma sort_dedup_app l1 l2 : sort_dedup (l1 ++ l2) = ins_all l2 (sort_dedup l1).
+Proof. unfold sort_dedup, ins_all. apply fold_left_app. Qed.
+
+(* ---- truncation commutes with insertion ---------------------------------------- *)
+Lemma firstn_ins n x l : firstn n (ins_asc x l) = firstn n (ins_asc x (firstn n l)).
+Proof.
+  revert n. induction l as [|z l IH]; intros [|n]; try reflexivity.
+  cbn [firstn ins_asc]. destruct (x <? z).
+  - cbn [firstn]. f_equal.
+    change (z :: firstn n l) with (firstn (S n) (z :: l)).
+    rewrite firstn_firstn. f_equal. lia.
+  - destruct (x =? z).
+    + cbn [firstn]. f_equal. rewrite firstn_firstn. f_equal. lia.
+    + cbn [firstn]. f_equal. apply IH.
+Qed.
+
+(* one Push, on ascending lists of length <= n *)
+Definition tstep (n : nat) (a : list N) (x : N) : list N := firstn n (ins_asc x a).
+
+Lemma firstn_ins_all n l acc :
+  firstn n (ins_all l acc) = fold_left (tstep n) l (firstn n acc).
+Proof.
+  unfold ins_all. revert acc. induction l as [|x l IH]; intros acc; cbn [fold_left]; [reflexivity|].
+  rewrite IH. f_equal. unfold tstep. apply firstn_ins.
+Qed.
+
+Lemma tstep_sorted n a x : asc a -> asc (tstep n a x).
+Proof. intros S. unfold tstep. apply ss_firstn. apply ins_asc_sorted. exact S. Qed.
+
+Lemma tstep_length n a x : (length (tstep n a x) <= n)%nat.
+Proof. unfold tstep. apply firstn_le_length. Qed.
+
+(* ---- the descending view ---------------------------------------------------------- *)
+Fixpoint dins (x : N) (l : list N) : list N :=
+  match l with
+  | [] => [x]
+  | y :: r => if y <? x then x :: l else if y =? x then l else y :: dins x r
+  end.
+
+Lemma dins_in x l y : In y (dins x l) <-> y = x \/ In y l.
+Proof.
+  induction l as [|z l IH]; cbn [dins].
+  - cbn. intuition congruence.
+  - destruct (z <? x); [cbn; intuition congruence|].
+    destruct (N.eqb_spec z x) as [E|E].
+    + subst z. cbn. intuition congruence.
+    + cbn [In]. rewrite IH. intuition congruence.
+Qed.
+
+Lemma dins_sorted x l : desc l -> desc (dins x l).
+Proof.
+  unfold desc. induction l as [|z l IH]; intros S; cbn [dins].
+  - constructor; constructor.
+  - pose proof S as S0. apply StronglySorted_inv in S. destruct S as [S F].
+    destruct (N.ltb_spec z x) as [L|L].
+    + constructor; [exact S0|]. constructor; [exact L|].
+      rewrite Forall_forall in *. intros y Hy. specialize (F y Hy). cbv beta in *. lia.
+    + destruct (N.eqb_spec z x) as [E|E]; [exact S0|].
+      constructor; [apply IH; exact S|].
+      rewrite Forall_forall in *. intros y Hy. apply dins_in in Hy. destruct Hy as [Hy|Hy].
+      * subst y. lia.
+      * apply F. exact Hy.
+Qed.
+
+Lemma dins_rev x a : asc a -> dins x (rev a) = rev (ins_asc x a).
+Proof.
+  intros S. apply desc_unique.
+  - apply dins_sorted. apply asc_rev. exact S.
+  - apply asc_rev. apply ins_asc_sorted. exact S.
+  - intros y. rewrite dins_in, <- !in_rev, ins_asc_in. reflexivity.
+Qed.
+
+Lemma dins_mem x l : desc l -> In x l -> dins x l = l.
+Proof.
+  unfold desc. induction l as [|z l IH]; intros S H; [destruct H|].
+  apply StronglySorted_inv in S. destruct S as [S F]. rewrite Forall_forall in F.
+  cbn [dins]. destruct (N.ltb_spec z x) as [L|L].
+  - exfalso. destruct H as [H|H]; [lia|]. specialize (F x H). cbv beta in F. lia.
+  - destruct (N.eqb_spec z x) as [E|E]; [reflexivity|].
+    f_equal. apply IH; [exact S|]. destruct H as [H|H]; [congruence|exact H].
+Qed.
+
+Lemma dins_notin x l : ~ In x l -> dins x l = insert_desc x l.
+Proof.
+  induction l as [|z l IH]; intros H; [reflexivity|].
+  cbn [dins insert_desc]. destruct (z <? x); [reflexivity|].
+  destruct (N.eqb_spec z x) as [E|E].
+  - exfalso. apply H. left. exact E.
+  - f_equal. apply IH. intros I. apply H. right. exact I.
+Qed.
+
+Lemma insert_desc_length x l : length (insert_desc x l) = S (length l).
+Proof.
+  induction l as [|z l IH]; [reflexivity|].
+  cbn [insert_desc]. destruct (z <? x); cbn [length]; [reflexivity|]. rewrite IH. reflexivity.
+Qed.
+
+Lemma memb_in x l : memb x l = true <-> In x l.
+Proof.
+  unfold memb. rewrite existsb_exists. split.
+  - intros [y [Hy E]]. apply N.eqb_eq in E. subst. exact Hy.
+  - intros H. exists x. split; [exact H|apply N.eqb_refl].
+Qed.
+
+Lemma lastn_rev {A} n (l : list A) : lastn n (rev l) = rev (firstn n l).
+Proof.
+  unfold lastn. rewrite skipn_rev, rev_length. f_equal.
+  destruct (Nat.le_gt_cases n (length l)) as [H|H].
+  - f_equal. lia.
+  - replace (length l - (length l - n))%nat with (length l) by lia.
+    rewrite firstn_all. symmetry. apply firstn_all2. lia.
+Qed.
+
+Lemma lastn_all {A} n (l : list A) : (length l <= n)%nat -> lastn n l = l.
+Proof. intros H. unfold lastn. replace (length l - n)%nat with 0%nat by lia. reflexivity. Qed.
+
+(* Push on a sorted collection = insert, then keep the n smallest *)
+Lemma push_desc n x d : desc d -> (length d <= n)%nat -> (1 <= n)%nat ->
+  push (Z.of_nat n) x d = Ok (lastn n (dins x d)).
+Proof.
+  intros Sd Hlen Hn. unfold push.
+  destruct (Z.eqb_spec (Z.of_nat (length d)) (Z.of_nat n)) as [E|E].
+  - apply Nat2Z.inj in E. destruct d as [|hd tl]; [cbn in E; lia|].
+    destruct (N.leb_spec hd x) as [L|L].
+    + f_equal. cbn [dins]. destruct (N.ltb_spec hd x) as [L2|L2].
+      * unfold lastn. change (length (x :: hd :: tl)) with (S (length (hd :: tl))). rewrite E.
+        replace (S n - n)%nat with 1%nat by lia. reflexivity.
+      * assert (hd = x) by lia. subst hd. rewrite N.eqb_refl. symmetry. apply lastn_all. lia.
+    + destruct (memb x (hd :: tl)) eqn:M.
+      * f_equal. apply memb_in in M. rewrite dins_mem by assumption. symmetry. apply lastn_all. lia.
+      * f_equal. assert (NI : ~ In x (hd :: tl)).
+        { intros I. apply memb_in in I. congruence. }
+        rewrite dins_notin by exact NI. cbn [insert_desc].
+        destruct (N.ltb_spec hd x) as [L2|L2]; [lia|].
+        unfold lastn. cbn [length]. rewrite insert_desc_length.
+        cbn [length] in E. rewrite E. replace (S n - n)%nat with 1%nat by lia. reflexivity.
+  - assert (length d < n)%nat by lia.
+    destruct (memb x d) eqn:M.
+    + f_equal. apply memb_in in M. rewrite dins_mem by assumption. symmetry. apply lastn_all. lia.
+    + f_equal. assert (NI : ~ In x d).
+      { intros I. apply memb_in in I. congruence. }
+      rewrite dins_notin by exact NI. symmetry. apply lastn_all. rewrite insert_desc_length. lia.
+Qed.
+
+Lemma push_asc n x a : asc a -> (length a <= n)%nat -> (1 <= n)%nat ->
+  push (Z.of_nat n) x (rev a) = Ok (rev (tstep n a x)).
+Proof.
+  intros S Hlen Hn. rewrite push_desc; [|apply asc_rev; exact S|rewrite rev_length; exact Hlen|exact Hn].
+  rewrite dins_rev by exact S. rewrite lastn_rev. reflexivity.
+Qed.
+
+(* ---- the loops of Add ------------------------------------------------------------ *)
+Section Hash.
+Variable h : bytes -> N.
+Let hs : bytes -> option N := fun b => Some (h b).
+
+Lemma push_kmers_asc n ks a : asc a -> (length a <= n)%nat -> (1 <= n)%nat ->
+  fold_left (push_kmer hs (Z.of_nat n)) ks (Ok (rev a)) = Ok (rev (fold_left (tstep n) (map h ks) a)).
+Proof.
+  intros S Hlen Hn. revert a S Hlen. induction ks as [|b ks IH]; intros a S Hlen; cbn [fold_left map]; [reflexivity|].
+  unfold push_kmer at 2. cbn [obind]. unfold hs at 2. rewrite push_asc by assumption.
+  apply IH; [apply tstep_sorted; exact S|apply tstep_length].
+Qed.
+
+Lemma fold_push_kmer_notok (g : bytes -> option N) n ks (acc : outcome (list N)) :
+  (forall l, acc <> Ok l) -> fold_left (push_kmer g n) ks acc = acc.
+Proof.
+  revert acc. induction ks as [|b ks IH]; intros acc H; cbn [fold_left]; [reflexivity|].
+  destruct acc as [l| |]; [exfalso; apply (H l); reflexivity| |]; cbn [push_kmer obind]; apply IH; intros l; discriminate.
+Qed.
+
+Lemma fold_add_seq_panic (g : bytes -> option N) n k seqs :
+  fold_left (add_seq g n k) seqs Panic = Panic.
+Proof. induction seqs as [|s seqs IH]; cbn [fold_left]; [reflexivity|]. cbn [add_seq obind]. exact IH. Qed.
+
+Lemma add_seq_ok (g : bytes -> option N) n k acc s ks :
+  canon (map upper_byte s) k = Ok ks -> add_seq g n k acc s = fold_left (push_kmer g n) ks acc.
+Proof.
+  intros C. unfold add_seq. rewrite C. destruct acc as [l| |]; cbn [obind]; [reflexivity| |];
+    symmetry; apply fold_push_kmer_notok; intros l; discriminate.
+Qed.
+
+Lemma kmers_cons k s r :
+  kmers k (s :: r) = match canon (map upper_byte s) k, kmers k r with
+                     | Ok a, Ok b => Ok (a ++ b) | _, _ => Panic end.
+Proof. reflexivity. Qed.
+
+Lemma kmers_not_err k seqs : kmers k seqs <> Err.
+Proof.
+  destruct seqs as [|s r]; [discriminate|]. rewrite kmers_cons.
+  destruct (canon _ k); try discriminate. destruct (kmers k r); discriminate.
+Qed.
+
+(* all sequences of one Add = all their k-mers, in order *)
+Lemma fold_add_seq_ok (g : bytes -> option N) n k seqs ks acc :
+  kmers k seqs = Ok ks ->
+  fold_left (add_seq g n k) seqs acc = fold_left (push_kmer g n) ks acc.
+Proof.
+  revert ks acc. induction seqs as [|s r IH]; intros ks acc K.
+  - cbn in K. inversion K. reflexivity.
+  - rewrite kmers_cons in K. destruct (canon (map upper_byte s) k) as [a| |] eqn:C; try discriminate.
+    destruct (kmers k r) as [b| |] eqn:Kr; try discriminate. inversion K; subst ks.
+    cbn [fold_left]. rewrite (add_seq_ok g n k acc s a C). rewrite (IH b _ eq_refl).
+    rewrite fold_left_app. reflexivity.
+Qed.
+
+Lemma push_kmer_not_err (g : bytes -> option N) n ks acc :
+  acc <> Err -> fold_left (push_kmer g n) ks acc <> Err.
+Proof.
+  revert acc. induction ks as [|b ks IH]; intros acc H; cbn [fold_left]; [exact H|].
+  apply IH. destruct acc as [l| |]; cbn [push_kmer obind]; [|congruence|discriminate].
+  destruct (g b); [|discriminate]. unfold push.
+  destruct (_ =? _)%Z; [destruct l; [discriminate|]; destruct (_ <=? _); [discriminate|]|];
+    destruct (memb _ _); discriminate.
+Qed.
+
+Lemma fold_add_seq_bad (g : bytes -> option N) n k seqs acc :
+  kmers k seqs = Panic -> acc <> Err -> fold_left (add_seq g n k) seqs acc = Panic.
+Proof.
+  revert acc. induction seqs as [|s r IH]; intros acc K Hacc; [discriminate|].
+  rewrite kmers_cons in K. cbn [fold_left].
+  destruct (canon (map upper_byte s) k) as [a| |] eqn:C.
+  - rewrite (add_seq_ok g n k acc s a C).
+    destruct (kmers k r) as [b| |] eqn:Kr; [discriminate|exfalso; exact (kmers_not_err k r Kr)|].
+    apply IH; [reflexivity|]. apply push_kmer_not_err. exact Hacc.
+  - unfold add_seq. rewrite C. destruct acc as [l| |]; cbn [obind]; [|congruence|];
+      apply fold_add_seq_panic.
+  - unfold add_seq. rewrite C. destruct acc as [l| |]; cbn [obind]; [|congruence|];
+      apply fold_add_seq_panic.
+Qed.
+
+(* Add on a collection holding the n smallest of [old]: the n smallest of old ++ new *)
+Lemma add_spec n k seqs ks old : (1 <= n)%Z -> kmers k seqs = Ok ks ->
+  add hs {| mh_k := n; mh_vals := sketch_of n old |} k seqs
+  = Ok {| mh_k := n; mh_vals := sketch_of n (old ++ map h ks) |}.
+Proof.
+  intros Hn K. unfold add. cbn [mh_k mh_vals].
+  rewrite (fold_add_seq_ok hs n k seqs ks _ K).
+  unfold sketch_of. rewrite <- (Z2Nat.id n) at 1 by lia.
+  rewrite push_kmers_asc.
+  - rewrite sort_dedup_app, firstn_ins_all. reflexivity.
+  - apply ss_firstn. apply sort_dedup_asc.
+  - apply firstn_le_length.
+  - lia.
+Qed.
+
+Lemma sketch_of_nil n : sketch_of n [] = [].
+Proof. unfold sketch_of, sort_dedup. cbn. rewrite firstn_nil. reflexivity. Qed.
+
+Lemma sequences_mh_spec n k seqs ks : (1 <= n)%Z -> kmers k seqs = Ok ks ->
+  sequences_mh hs n k seqs = Ok {| mh_k := n; mh_vals := sketch_of n (map h ks) |}.
+Proof.
+  intros Hn K. unfold sequences_mh, mh_new.
+  destruct (Z.ltb_spec n 1) as [L|L]; [lia|]. cbn [obind].
+  rewrite <- (sketch_of_nil n). rewrite (add_spec n k seqs ks [] Hn K). reflexivity.
+Qed.
+
+(* the complete description of Sequences(...).View() *)
+Lemma sequences_spec n k seqs :
+  sequences hs n k seqs =
+  if (n <? 1)%Z then Panic
+  else match kmers k seqs with
+       | Ok ks => Ok (sketch_of n (map h ks))
+       | _ => Panic
+       end.
+Proof.
+  destruct (Z.ltb_spec n 1) as [L|L].
+  - unfold sequences, sequences_mh, mh_new. destruct (Z.ltb_spec n 1); [reflexivity|lia].
+  - destruct (kmers k seqs) as [ks| |] eqn:K.
+    + unfold sequences. rewrite (sequences_mh_spec n k seqs ks) by (assumption || lia). reflexivity.
+    + exfalso. exact (kmers_not_err k seqs K).
+    + unfold sequences, sequences_mh, mh_new. destruct (Z.ltb_spec n 1); [lia|]. cbn [obind].
+      unfold add. cbn [mh_k mh_vals]. rewrite (fold_add_seq_bad hs n k seqs _ K) by discriminate. reflexivity.
+Qed.
+
+Lemma sketch_exact n k seqs ks : (1 <= n)%Z -> kmers k seqs = Ok ks ->
+  sequences hs n k seqs = Ok (rev (firstn (Z.to_nat n) (sort_dedup (map h ks)))).
+Proof.
+  intros Hn K. rewrite sequences_spec. destruct (Z.ltb_spec n 1); [lia|]. rewrite K. reflexivity.
+Qed.
+
+Lemma sketch_panics n k seqs : (n < 1)%Z \/ kmers k seqs = Panic -> sequences hs n k seqs = Panic.
+Proof.
+  intros H. rewrite sequences_spec. destruct (Z.ltb_spec n 1); [reflexivity|].
+  destruct H as [H|H]; [lia|]. rewrite H. reflexivity.
+Qed.
+
+(* ---- content only ------------------------------------------------------------------ *)
+Lemma sketch_of_content n l1 l2 : (forall x, In x l1 <-> In x l2) -> sketch_of n l1 = sketch_of n l2.
+Proof. intros H. unfold sketch_of. rewrite (sort_dedup_content l1 l2 H). reflexivity. Qed.
+
+Lemma sketch_content n k seqs seqs' ks ks' :
+  kmers k seqs = Ok ks -> kmers k seqs' = Ok ks' ->
+  (forall b, In b ks <-> In b ks') ->
+  sequences hs n k seqs = sequences hs n k seqs'.
+Proof.
+  intros K K' H. rewrite !sequences_spec, K, K'. destruct (n <? 1)%Z; [reflexivity|].
+  f_equal. apply sketch_of_content. intros x. rewrite !in_map_iff.
+  split; intros [b [E I]]; exists b; (split; [exact E|apply H; exact I]).
+Qed.
+
+Lemma sketch_perm n k seqs seqs' ks ks' :
+  kmers k seqs = Ok ks -> kmers k seqs' = Ok ks' -> Permutation ks ks' ->
+  sequences hs n k seqs = sequences hs n k seqs'.
+Proof.
+  intros K K' P. apply (sketch_content n k seqs seqs' ks ks' K K').
+  intros b. split; apply Permutation_in; [exact P|apply Permutation_sym; exact P].
+Qed.
+
+(* kmers up to permutation *)
+Definition kequiv (o o' : outcome (list bytes)) : Prop :=
+  match o, o' with
+  | Ok a, Ok b => Permutation a b
+  | Panic, Panic => True
+  | Err, Err => True
+  | _, _ => False
+  end.
+
+Lemma kequiv_refl o : kequiv o o.
+Proof. destruct o; cbn; auto. Qed.
+
+Lemma kequiv_trans a b c : kequiv a b -> kequiv b c -> kequiv a c.
+Proof. destruct a, b, c; cbn; try tauto. apply Permutation_trans. Qed.
+
+Lemma kmers_reorder k seqs seqs' : Permutation seqs seqs' -> kequiv (kmers k seqs) (kmers k seqs').
+Proof.
+  induction 1 as [|s l l' P IH|s t l|l l' l'' P1 IH1 P2 IH2].
+  - apply kequiv_refl.
+  - rewrite !kmers_cons. destruct (canon (map upper_byte s) k) as [a| |]; cbn; auto.
+    destruct (kmers k l), (kmers k l'); cbn in *; try tauto. apply Permutation_app_head. exact IH.
+  - rewrite !kmers_cons.
+    destruct (canon (map upper_byte s) k) as [a| |], (canon (map upper_byte t) k) as [b| |], (kmers k l) as [c| |];
+      cbn; auto.
+    rewrite !app_assoc. apply Permutation_app_tail. apply Permutation_app_comm.
+  - eapply kequiv_trans; eassumption.
+Qed.
+
+Lemma sequences_kequiv n k seqs seqs' : kequiv (kmers k seqs) (kmers k seqs') ->
+  sequences hs n k seqs = sequences hs n k seqs'.
+Proof.
+  intros H. rewrite !sequences_spec. destruct (n <? 1)%Z; [reflexivity|].
+  destruct (kmers k seqs) as [a| |], (kmers k seqs') as [b| |]; cbn in H; try tauto.
+  f_equal. apply sketch_of_content. intros x. rewrite !in_map_iff.
+  split; intros [y [E I]]; exists y; (split; [exact E|]); eapply Permutation_in; try exact I;
+    [exact H|apply Permutation_sym; exact H].
+Qed.
+
+Lemma sketch_reorder n k seqs seqs' : Permutation seqs seqs' ->
+  sequences hs n k seqs = sequences hs n k seqs'.
+Proof. intros P. apply sequences_kequiv. apply kmers_reorder. exact P. Qed.
+
+(* ---- letter case ---------------------------------------------------------------------- *)
+Lemma kmers_case k seqs seqs' :
+  Forall2 (fun s s' => map upper_byte s = map upper_byte s') seqs seqs' -> kmers k seqs = kmers k seqs'.
+Proof.
+  induction 1 as [|s s' l l' E F IH]; [reflexivity|]. rewrite !kmers_cons, E, IH. reflexivity.
+Qed.
+
+Lemma sketch_case n k seqs seqs' :
+  Forall2 (fun s s' => map upper_byte s = map upper_byte s') seqs seqs' ->
+  sequences hs n k seqs = sequences hs n k seqs'.
+Proof. intros H. rewrite !sequences_spec, (kmers_case k seqs seqs' H). reflexivity. Qed.
+
+(* ---- a smaller sketch is the tail of a larger one ---------------------------------------- *)
+Lemma sketch_of_tail n n' l : (0 <= n' <= n)%Z ->
+  sketch_of n' l = lastn (Z.to_nat n') (sketch_of n l).
+Proof.
+  intros H. unfold sketch_of. rewrite lastn_rev, firstn_firstn. f_equal. f_equal. lia.
+Qed.
+
+Lemma sketch_tail n n' k seqs v : (1 <= n' <= n)%Z ->
+  sequences hs n k seqs = Ok v ->
+  sequences hs n' k seqs = Ok (lastn (Z.to_nat n') v).
+Proof.
+  intros H. rewrite !sequences_spec.
+  destruct (Z.ltb_spec n 1); [lia|]. destruct (Z.ltb_spec n' 1); [lia|].
+  destruct (kmers k seqs) as [ks| |]; try discriminate.
+  intros E. inversion E. f_equal. apply sketch_of_tail. lia.
+Qed.
+
+(* ---- incremental Add ---------------------------------------------------------------------- *)
+Lemma kmers_app k l1 l2 a b : kmers k l1 = Ok a -> kmers k l2 = Ok b -> kmers k (l1 ++ l2) = Ok (a ++ b).
+Proof.
+  revert a. induction l1 as [|s l1 IH]; intros a K1 K2.
+  - cbn in K1. inversion K1. exact K2.
+  - cbn [app]. rewrite kmers_cons in *. destruct (canon (map upper_byte s) k) as [c| |]; try discriminate.
+    destruct (kmers k l1) as [d| |]; try discriminate. inversion K1.
+    rewrite (IH d eq_refl K2). rewrite app_assoc. reflexivity.
+Qed.
+
+Lemma kmers_app_inv k l1 l2 c : kmers k (l1 ++ l2) = Ok c ->
+  exists a b, kmers k l1 = Ok a /\ kmers k l2 = Ok b /\ c = a ++ b.
+Proof.
+  revert c. induction l1 as [|s l1 IH]; intros c K.
+  - exists [], c. cbn in *. auto.
+  - cbn [app] in K. rewrite kmers_cons in *. destruct (canon (map upper_byte s) k) as [x| |]; try discriminate.
+    destruct (kmers k (l1 ++ l2)) as [y| |] eqn:E; try discriminate. inversion K.
+    destruct (IH y eq_refl) as [a [b [Ka [Kb Ey]]]]. rewrite Ka.
+    exists (x ++ a), b. subst y. rewrite app_assoc. auto.
+Qed.
+
+Lemma add_batches_spec n k batches ks old : (1 <= n)%Z -> kmers k (concat batches) = Ok ks ->
+  add_batches hs {| mh_k := n; mh_vals := sketch_of n old |} k batches
+  = Ok {| mh_k := n; mh_vals := sketch_of n (old ++ map h ks) |}.
+Proof.
+  intros Hn. unfold add_batches. revert ks old. induction batches as [|b r IH]; intros ks old K.
+  - cbn in K. inversion K. cbn. rewrite app_nil_r. reflexivity.
+  - cbn [concat] in K. apply kmers_app_inv in K. destruct K as [x [y [Kx [Ky E]]]]. subst ks.
+    cbn [fold_left obind]. rewrite (add_spec n k b x old Hn Kx).
+    rewrite (IH y _ Ky). rewrite map_app, app_assoc. reflexivity.
+Qed.
+
+(* Sequences on the first batch and Add for the others = Sequences on everything *)
+Lemma sketch_incremental n k batches ks : batches <> [] -> (1 <= n)%Z ->
+  kmers k (concat batches) = Ok ks ->
+  incremental hs n k batches = sequences hs n k (concat batches).
+Proof.
+  intros NE Hn K. destruct batches as [|b r]; [congruence|].
+  rewrite (sketch_exact n k _ ks Hn K). fold (sketch_of n (map h ks)).
+  cbn [concat] in K. apply kmers_app_inv in K. destruct K as [x [y [Kx [Ky E]]]]. subst ks.
+  unfold incremental. rewrite (sequences_mh_spec n k b x Hn Kx). cbn [obind].
+  rewrite (add_batches_spec n k r y _ Hn Ky). cbn [obind mh_vals]. rewrite map_app. reflexivity.
+Qed.
+
+End Hash.
